@@ -75,7 +75,11 @@ impl<T> InnerQueue<T> {
         match self.queue.pop() {
             Some(data) => Ok(data),
             None => match self.tx_ports.load(Ordering::Acquire) {
-                0 => Err(RecvTimeoutError::Disconnected),
+                0 => {
+                    // this was the disconnect permit, pass it on to the next receiver
+                    self.sem.post();
+                    Err(RecvTimeoutError::Disconnected)
+                }
                 _n => unreachable!("mpmc recv found no data"),
             },
         }
@@ -83,16 +87,23 @@ impl<T> InnerQueue<T> {
 
     pub fn try_recv(&self) -> Result<T, TryRecvError> {
         if !self.sem.try_wait() {
-            return match self.tx_ports.load(Ordering::Acquire) {
-                0 => Err(TryRecvError::Disconnected),
-                _ => Err(TryRecvError::Empty),
-            };
+            if self.tx_ports.load(Ordering::Acquire) != 0 {
+                return Err(TryRecvError::Empty);
+            }
+            // there is no sender any more, everything sent has its permit: re-check
+            if !self.sem.try_wait() {
+                return Err(TryRecvError::Disconnected);
+            }
         }
 
         match self.queue.pop() {
             Some(data) => Ok(data),
             None => match self.tx_ports.load(Ordering::Acquire) {
-                0 => Err(TryRecvError::Disconnected),
+                0 => {
+                    // this was the disconnect permit, pass it on to the next receiver
+                    self.sem.post();
+                    Err(TryRecvError::Disconnected)
+                }
                 _ => unreachable!("mpmc try_recv found no data"),
             },
         }
@@ -106,10 +117,9 @@ impl<T> InnerQueue<T> {
         match self.tx_ports.fetch_sub(1, Ordering::SeqCst) {
             1 => {
                 // there is no tx port any more
-                // should tell all the waited rx to come back
-                while self.sem.get_value() == 0 {
-                    self.sem.post();
-                }
+                // post one disconnect permit: every receiver that finds the queue
+                // empty with it passes it on, so all waiting rx come back
+                self.sem.post();
             }
             n if n > 1 => {}
             n => panic!("bad number of tx_ports left {n}"),
